@@ -327,8 +327,14 @@ CLAIMS["C12"] = dict(
           "(f = x^3) equals V (h o V^T sym(Cdot) V) V^T for distinct, double and triple eigenvalues, the sqrt relative difference and "
           "the coefficients of the log Taylor series are proved algebraically and the remaining transcendental formulas are screened "
           "for counterexamples (refutation only). Accuracy over magnitudes, near degeneracy, "
-          "and the LinAlg iterations are numerical and NOT decided."),
-    design_ref="DESIGN.md section 4, C12",
+          "and the LinAlg iterations are numerical and NOT decided."
+          " All of these are read off values of a symbolic interpretation (rules/C12_sym.py, an extension of optilint.tensoreval: undecided comparisons "
+          "become symbolic conditions in negation normal form, where / if_then_else / lax.cond become select atoms so that swapped branches with a negated "
+          "test coincide, sign / abs / min / max / exp / log / pow / norms are opaque function atoms, argsort / sort / take give symbolic permutation and "
+          "gather objects; the eigen solver is interpreted without hypothesis, in the general and in the spherical branch, rules/C12_eigen.py), not off "
+          "statement shapes: renames, helper extraction, keyword arguments, hoisted predicates, De Morgan and def/lambda changes do not matter; sign "
+          "conventions are fixed at sample points on top of exact squared identities; an idiom that is not modelled gives UNDECIDED."),
+    design_ref="DESIGN.md section 4, C12 and section 11.8",
     technique="static analysis: exact rational normal forms of the straight-line eigen solver (polynomial identities, definiteness of quadratic forms, finite sign-range case split), abstract interpretation on generic symbolic data, constant folding of literal tables, role/permutation rules, custom_jvp protocol checking")
 
 CLAIMS["C10"] = dict(
